@@ -230,7 +230,11 @@ func solveAll(frs []*FuncResult, timeoutS int, confirm bool, tmpdir string) {
 		}
 	}
 	var wg sync.WaitGroup
-	sem := make(chan bool, runtime.NumCPU())
+	par := runtime.NumCPU()
+	if solvePar > 0 {
+		par = solvePar
+	}
+	sem := make(chan bool, par)
 	for _, j := range jobs {
 		wg.Add(1)
 		sem <- true
@@ -241,6 +245,32 @@ func solveAll(frs []*FuncResult, timeoutS int, confirm bool, tmpdir string) {
 		}(j)
 	}
 	wg.Wait()
+}
+
+// solvePar overrides the number of obligations solved at once (0: one per CPU).
+var solvePar int
+
+// retryUndecided gives every obligation the solvers did not decide (timeout / unknown) while all cores
+// were busy a second, nearly uncontended run with three times the time limit, so that a slow or loaded
+// machine does not turn a provable obligation into an alarm. A decided result (sat / unsat) is never
+// retried: a refuted obligation stays refuted.
+func retryUndecided(frs []*FuncResult, timeoutS int, tmpdir string) {
+	n := 0
+	for _, fr := range frs {
+		for i := range fr.Obls {
+			if r := fr.Obls[i].Result; r == "timeout" || r == "unknown" {
+				fr.Obls[i].Result = ""
+				n++
+			}
+		}
+	}
+	if n == 0 {
+		return
+	}
+	save := solvePar
+	solvePar = 4
+	solveAll(frs, 3*timeoutS, false, tmpdir)
+	solvePar = save
 }
 
 type Finding struct {
@@ -341,6 +371,7 @@ func cmdCheck(args []string) int {
 		frs = append(frs, genFuncAll(cs, l, c, false)...)
 	}
 	solveAll(frs, timeoutS, *tier == "thorough", tmpdir)
+	retryUndecided(frs, timeoutS, tmpdir)
 	// side conditions (no-overflow, sign of division) that fail are not violations: the function is
 	// re-verified under exact wrap-around semantics and only its real obligations count.
 	for i, fr := range frs {
@@ -354,6 +385,7 @@ func cmdCheck(args []string) int {
 			nfr := genFunc(cs, l, fr.Contract, true, fr.SplitCallee, fr.SplitVal)
 			nfr.WrapRerun = true
 			solveAll([]*FuncResult{nfr}, timeoutS, false, tmpdir)
+			retryUndecided([]*FuncResult{nfr}, timeoutS, tmpdir)
 			frs[i] = nfr
 		}
 	}
